@@ -6,6 +6,7 @@
 (*          (kind c = caller goroutine, w = worker, s = slice goroutine)   *)
 (*   S      start / end of every request as seen by the fake server        *)
 (*   R      what a caller received                                         *)
+(*   T      the (fake) cache clock advanced by n seconds                   *)
 (*   End    end of the case (ok = FALSE: reproducible hang)                *)
 (*                                                                         *)
 (* (4a) VERDICT, from S / R / End only (what the server saw, what callers  *)
@@ -27,15 +28,17 @@ TraceWorkers   == 1..20
 TraceQuestions == 1..64
 TraceLockKeyOf == [q \in TraceQuestions |-> ""]       \* keys come from the events
 TraceReqsOf    == [q \in TraceQuestions |-> {}]
+TraceTTLOf     == [k \in {} |-> 0]                    \* lifetimes come from the question kind (TraceTTL)
 
 VARIABLES l, done, cs, lost, lead, jobOf,
           sInfl,     \* requests in flight at the server (ids)
           sReq,      \* id -> what the server logged
           twins,     \* pairs of simultaneously running identical requests (neither aborted)
           maxLive,   \* highest number of simultaneously running, non-aborted requests
-          answers,   \* caller -> [ok, ans]
+          answers,   \* caller -> [ok, ans, t]
+          tnow,      \* fake cache clock of the case in seconds (sum of the T records so far)
           cerr       \* number of requests the client saw fail (end-err)
-ovars == <<sInfl, sReq, twins, maxLive, answers>>
+ovars == <<sInfl, sReq, twins, maxLive, answers, tnow>>
 tvars == <<vars, l, done, cs, lost, lead, jobOf, ovars, cerr>>
 
 Rec == TraceLog[l]
@@ -53,11 +56,11 @@ TraceInit ==
   /\ wpc = [w \in Workers |-> "idle"]
   /\ wjob = [w \in Workers |-> <<>>]
   /\ wres = [w \in Workers |-> Err]
-  /\ cache = EmptyFn /\ inflight = {}
+  /\ cache = EmptyFn /\ now = 0 /\ inflight = {}
   /\ nreq = EmptyFn /\ nfail = EmptyFn /\ nexp = EmptyFn
   /\ budget = <<MaxFail, MaxExpire>>
   /\ l = 1 /\ done = FALSE /\ cs = NoCase /\ lost = FALSE /\ lead = FALSE /\ jobOf = EmptyFn
-  /\ sInfl = {} /\ sReq = EmptyFn /\ twins = {} /\ maxLive = 0 /\ answers = EmptyFn /\ cerr = 0
+  /\ sInfl = {} /\ sReq = EmptyFn /\ twins = {} /\ maxLive = 0 /\ answers = EmptyFn /\ tnow = 0 /\ cerr = 0
 
 -----------------------------------------------------------------------------
 TCase ==
@@ -74,11 +77,11 @@ TCase ==
   /\ wpc' = [w \in Workers |-> "idle"]
   /\ wjob' = [w \in Workers |-> <<>>]
   /\ wres' = [w \in Workers |-> Err]
-  /\ cache' = EmptyFn /\ inflight' = {}
+  /\ cache' = EmptyFn /\ now' = 0 /\ inflight' = {}
   /\ nreq' = EmptyFn /\ nfail' = EmptyFn /\ nexp' = EmptyFn
   /\ budget' = <<MaxFail, MaxExpire>>
   /\ lost' = FALSE /\ lead' = FALSE /\ jobOf' = EmptyFn
-  /\ sInfl' = {} /\ sReq' = EmptyFn /\ twins' = {} /\ maxLive' = 0 /\ answers' = EmptyFn /\ cerr' = 0
+  /\ sInfl' = {} /\ sReq' = EmptyFn /\ twins' = {} /\ maxLive' = 0 /\ answers' = EmptyFn /\ tnow' = 0 /\ cerr' = 0
   /\ l' = l + 1 /\ UNCHANGED done
 
 -----------------------------------------------------------------------------
@@ -103,6 +106,11 @@ HasJob == Rec.job \in DOMAIN jobOf
 TheJob == jobOf[Rec.job]
 KeyIs == wjob[Rec.a] # <<>> /\ Job(Rec.a).key = Rec.key
 
+\* querier.CacheTTL() in seconds by question kind; for a range slice (ttl = slice end - start + 10m) the lower bound
+KindTTL(kind) == CASE kind = "query" -> 300 [] kind = "config" -> 60 [] kind = "flags" -> 600
+                   [] kind = "metadata" -> 600 [] OTHER -> 600
+TraceTTL(w) == KindTTL(cs.questions[ask[Job(w).caller]].kind)
+
 \* guard of the step the event names
 HGuard ==
   CASE Rec.h = "want"    -> IF Rec.kind = "w" THEN IsW /\ wpc[Rec.a] = "wantSlice"
@@ -120,7 +128,7 @@ HGuard ==
     [] Rec.h = "end-err" -> IsW /\ EndErrG(Rec.a) /\ KeyIs
     [] Rec.h = "set"     -> IsW /\ CacheSetG(Rec.a) /\ KeyIs
     [] Rec.h = "reply"   -> IsW /\ SendG(Rec.a) /\ KeyIs
-    [] Rec.h = "evict"   -> ExpireG(Rec.key)
+    [] Rec.h = "evict"   -> EvictG(Rec.key)
     [] OTHER             -> FALSE
 
 HStep ==
@@ -135,9 +143,9 @@ HStep ==
     [] Rec.h = "start"   -> StartRequest(Rec.a)
     [] Rec.h = "end-ok"  -> EndOk(Rec.a)
     [] Rec.h = "end-err" -> EndErr(Rec.a)
-    [] Rec.h = "set"     -> CacheSet(Rec.a)
+    [] Rec.h = "set"     -> CacheSet(Rec.a, TraceTTL(Rec.a))
     [] Rec.h = "reply"   -> Send(Rec.a)
-    [] Rec.h = "evict"   -> Expire(Rec.key)
+    [] Rec.h = "evict"   -> Evict(Rec.key)
 
 TH ==
   /\ l <= Len(TraceLog) /\ Rec.ev = "H"
@@ -165,7 +173,7 @@ TS ==
   /\ l <= Len(TraceLog) /\ Rec.ev = "S"
   /\ IF Rec.h = "start"
      THEN /\ sReq' = (Rec.rid :> [key |-> Rec.key, path |-> Rec.path, query |-> Rec.query, start |-> Rec.start,
-                                  end |-> Rec.end, step |-> Rec.step, outcome |-> Rec.outcome]) @@ sReq
+                                  end |-> Rec.end, step |-> Rec.step, outcome |-> Rec.outcome, t |-> tnow]) @@ sReq
           /\ sInfl' = sInfl \cup {Rec.rid}
           /\ twins' = IF Aborted(Rec.outcome) THEN twins
                       ELSE twins \cup {{x, Rec.rid} : x \in {y \in sInfl : sReq[y].key = Rec.key /\ ~Aborted(sReq[y].outcome)}}
@@ -173,12 +181,19 @@ TS ==
              maxLive' = IF live > maxLive THEN live ELSE maxLive
      ELSE /\ sInfl' = sInfl \ {Rec.rid}
           /\ UNCHANGED <<sReq, twins, maxLive>>
-  /\ l' = l + 1 /\ UNCHANGED <<vars, done, cs, lost, lead, jobOf, answers, cerr>>
+  /\ l' = l + 1 /\ UNCHANGED <<vars, done, cs, lost, lead, jobOf, answers, tnow, cerr>>
 
 TR ==
   /\ l <= Len(TraceLog) /\ Rec.ev = "R"
-  /\ answers' = (Rec.a :> [ok |-> Rec.ok, ans |-> Rec.ans]) @@ answers
-  /\ l' = l + 1 /\ UNCHANGED <<vars, done, cs, lost, lead, jobOf, sInfl, sReq, twins, maxLive, cerr>>
+  /\ answers' = (Rec.a :> [ok |-> Rec.ok, ans |-> Rec.ans, t |-> tnow]) @@ answers
+  /\ l' = l + 1 /\ UNCHANGED <<vars, done, cs, lost, lead, jobOf, sInfl, sReq, twins, maxLive, tnow, cerr>>
+
+\* the cache clock advanced by Rec.n seconds (binding: Advance; verdict side: tnow)
+TT ==
+  /\ l <= Len(TraceLog) /\ Rec.ev = "T"
+  /\ tnow' = tnow + Rec.n
+  /\ IF lost THEN UNCHANGED vars ELSE Advance(Rec.n)
+  /\ l' = l + 1 /\ UNCHANGED <<done, cs, lost, lead, jobOf, sInfl, sReq, twins, maxLive, answers, cerr>>
 
 \* ---- Doc side, evaluated at the end of the case
 Q(i) == cs.questions[i]
@@ -206,7 +221,8 @@ TwinsOf(r) == {p \in twins : r \in p}
 Kind(path) == CASE path = "/api/v1/query" -> "query" [] path = "/api/v1/query_range" -> "query_range"
                 [] path = "/api/v1/status/config" -> "config" [] path = "/api/v1/status/flags" -> "flags"
                 [] path = "/api/v1/metadata" -> "metadata" [] OTHER -> "other"
-AnsOf(q) == {answers[c].ans : c \in {d \in DOMAIN answers : d <= Len(cs.asks) /\ cs.asks[d] = q /\ answers[d].ok}}
+AnsAt(q, t) == {answers[c].ans : c \in {d \in DOMAIN answers : d <= Len(cs.asks) /\ cs.asks[d] = q /\ answers[d].ok /\ answers[d].t = t}}
+AnsTimes == {answers[c].t : c \in DOMAIN answers}
 QKind(q) == IF Q(q).kind = "range" THEN "query_range" ELSE Q(q).kind
 QShared(q) == Q(q).kind = "range" /\ \E r \in Rids : SliceOf(r, q) /\ Sharers(r) >= 2
 
@@ -222,17 +238,26 @@ JudgeNoTwin ==
               Sharers(r) >= 2 /\ \A x \in OfKey(k) : Cardinality(TwinsOf(x)) <= Sharers(r) - 1,
               k)
 JudgeBounded == IF Cancelling \/ maxLive <= cs.c THEN TRUE ELSE Viol("Bounded", "any", FALSE, ToString(maxLive))
+\* "a successful answer is reused for its cache lifetime": while an earlier successful answer for the key is
+\* still alive on the cache clock no request is justified except after failures; otherwise one is
+Lifetime(path) == KindTTL(IF Kind(path) = "query_range" THEN "range" ELSE Kind(path))
+TimesOf(k) == {sReq[r].t : r \in OfKey(k)}
+AtTime(k, t) == {r \in OfKey(k) : sReq[r].t = t}
+Alive(k, t) == \E r \in OfKey(k) : /\ sReq[r].outcome = "ok" /\ sReq[r].t < t
+                                    /\ t - sReq[r].t <= Lifetime(sReq[r].path)
 JudgeOnce ==
-  \A k \in KeysSeen :
-    LET n == Cardinality(OfKey(k))
-        f == Cardinality(Failed(k))
+  \A k \in KeysSeen : \A t \in TimesOf(k) :
+    LET n == Cardinality(AtTime(k, t))
+        f == Cardinality({r \in AtTime(k, t) : sReq[r].outcome # "ok"})
+        a == IF Alive(k, t) THEN 0 ELSE 1
         r == AnyOf(k) IN
-    IF ~Judged(r) \/ n <= 1 + f THEN TRUE
-    ELSE Viol("Once", Kind(sReq[r].path), Sharers(r) >= 2 /\ n <= Sharers(r) + f, k)
+    IF ~Judged(r) \/ n <= a + f THEN TRUE
+    ELSE Viol("Once", Kind(sReq[r].path), Sharers(r) >= 2 /\ n <= a + f + Sharers(r) - 1,
+              IF a = 0 THEN "requested again while the cached answer is alive: " \o k ELSE k)
 JudgeAgree ==
-  \A q \in 1..Len(cs.questions) :
-    IF Cardinality(AnsOf(q)) <= 1 THEN TRUE
-    ELSE Viol("Agree", QKind(q), QShared(q), ToString(Cardinality(AnsOf(q))))
+  \A q \in 1..Len(cs.questions) : \A t \in AnsTimes :
+    IF Cardinality(AnsAt(q, t)) <= 1 THEN TRUE
+    ELSE Viol("Agree", QKind(q), QShared(q), ToString(Cardinality(AnsAt(q, t))))
 JudgeHang == IF Rec.ok THEN TRUE ELSE Viol("Hang", "any", FALSE, ToString(Rec.returned))
 
 TEnd ==
@@ -256,6 +281,6 @@ TDone ==
   /\ done' = TRUE /\ PrintT(<<"DONE", l - 1>>)
   /\ UNCHANGED <<vars, l, cs, lost, lead, jobOf, ovars, cerr>>
 
-TraceNext == TCase \/ TH \/ TS \/ TR \/ TEnd \/ TSkipped \/ TRace \/ TDone
+TraceNext == TCase \/ TH \/ TS \/ TR \/ TT \/ TEnd \/ TSkipped \/ TRace \/ TDone
 TraceSpec == TraceInit /\ [][TraceNext]_tvars
 =============================================================================
